@@ -1342,6 +1342,13 @@ func (e *fnEnc) afterCall(st *state, v *ssa.Call, preCall *state) {
 		}
 		env.iterLoop = inner
 		t := env.evalBool(ac.Expr)
+		if strings.HasPrefix(ac.Label, "assumed:") {
+			// a definitional step of a ghost function, assumed at this program point (listed
+			// in the evidence, never an obligation)
+			e.V.Assumed[fmt.Sprintf("after-call %s in %s: [%s] %s", ac.Callee, funcKey(e.fn), ac.Label, ac.Src)] = true
+			e.assume(st, t)
+			continue
+		}
 		o := e.oblige(st, "assert", fmt.Sprintf("after:%s[%s]", ac.Callee, labelOr(ac.Label, i)), v.Pos(), t)
 		o.Quantified = strings.Contains(t, "forall") || strings.Contains(t, "exists")
 		o.Src = ac.Src
